@@ -41,8 +41,14 @@ GoW(k) == CASE k = "bool" -> 1 [] k = "i8" -> 1 [] k = "i16" -> 2 [] k = "i32" -
 WireW(k) == IF k = "enum" THEN 4 ELSE GoW(k)
 
 \* fields of a struct sorted by id: the order of the encoder and of the schema
-SDefs == [s \in DOMAIN Defs |->
-            [Defs[s] EXCEPT !.fields = SortSeq(Defs[s].fields, LAMBDA a, b : a.id < b.id)]]
+SDefs == MatF([s \in DOMAIN Defs |->
+            [Defs[s] EXCEPT !.fields = SortSeq(Defs[s].fields, LAMBDA a, b : a.id < b.id)]])
+
+\* key -> field record, per struct (explicit records: looked up on every field access)
+ByKey == MatF([s \in DOMAIN Defs |->
+            MatF([key \in {Defs[s].fields[j].key : j \in 1..Len(Defs[s].fields)} |->
+                    Defs[s].fields[CHOOSE j \in 1..Len(Defs[s].fields) : Defs[s].fields[j].key = key]])])
+FieldByKey(s, key) == ByKey[s][key]
 
 FieldsOf(s) == SDefs[s].fields
 HasInit(s)  == SDefs[s].init
@@ -68,9 +74,7 @@ ZeroOf(t) ==
          [] t.k \in ListKinds -> [nil |-> TRUE, items |-> <<>>]
          [] t.k = "map" -> [nil |-> TRUE, ents |-> <<>>]
          [] t.k = "struct" ->
-              [f |-> [key \in {FieldsOf(t.s)[j].key : j \in 1..Len(FieldsOf(t.s))} |->
-                        LET j == CHOOSE j \in 1..Len(FieldsOf(t.s)) : FieldsOf(t.s)[j].key = key
-                        IN ZeroOf(FieldsOf(t.s)[j].t)],
+              [f |-> MatF([key \in DOMAIN ByKey[t.s] |-> ZeroOf(ByKey[t.s][key].t)]),
                unk |-> <<>>]
 
 \* the Go zero value of struct s
@@ -79,8 +83,6 @@ ZeroStruct(s) == ZeroOf([k |-> "struct", s |-> s, ptr |-> FALSE])
 \* the value of struct s after its default initialiser ran on a zero value
 DefaultStruct(s) ==
   IF ~HasInit(s) THEN ZeroStruct(s)
-  ELSE [f |-> [key \in {FieldsOf(s)[j].key : j \in 1..Len(FieldsOf(s))} |->
-                 LET j == CHOOSE j \in 1..Len(FieldsOf(s)) : FieldsOf(s)[j].key = key
-                 IN FieldsOf(s)[j].def],
+  ELSE [f |-> MatF([key \in DOMAIN ByKey[s] |-> ByKey[s][key].def]),
         unk |-> <<>>]
 =============================================================================
